@@ -42,6 +42,8 @@ type Case struct {
 	Exits []string `json:"exits,omitempty"` // per routine: normal | return | error | interrupt
 	IntAt int      `json:"int_at,omitempty"`
 	Kind  string   `json:"kind,omitempty"` // s3: clos | flavor | hash
+	// Resync: every routine calls (set-synchronized o t) again before each update
+	Resync bool `json:"resync,omitempty"`
 	// s4
 	Work []string `json:"work,omitempty"` // per routine: defvar | defun | generic | print | lambda
 	// schedule
@@ -124,11 +126,16 @@ func (e *engine) Generate(seed uint64, idx int, tier string, avoid []harness.Fin
 		c.R = 2 + r.Intn(3)
 		c.Iter = 1 + r.Intn(4)
 		c.Kind = []string{"clos", "flavor", "hash"}[r.Intn(3)]
+		c.Resync = c.Kind != "hash" && r.Pct(40)
+	case x < 92:
+		c.Scen = "s5"
+		c.R = 1 + r.Intn(3) // calling routines
+		c.Iter = 1 + r.Intn(4)
 	default:
 		c.Scen = "s4"
 		c.R = 2 + r.Intn(3)
 		for i := 0; i < c.R; i++ {
-			c.Work = append(c.Work, []string{"defvar", "defun", "generic", "print", "lambda"}[r.Intn(5)])
+			c.Work = append(c.Work, []string{"defvar", "defun", "generic", "print", "lambda", "exit", "exit"}[r.Intn(7)])
 		}
 	}
 	c.Policy = []string{sched.PolicyRandom, sched.PolicyRandom, sched.PolicyPCT, sched.PolicyRTB, sched.PolicyRR}[r.Intn(5)]
@@ -240,6 +247,9 @@ func (c *Case) program(sfx string) program {
 				wr = fmt.Sprintf("(with-mutex-lock m (setf (gethash 'k%d o) (+ 1 (gethash 'k%d o))))", other, other)
 				rd = fmt.Sprintf("(with-mutex-lock m (setf (gethash 'k%d o) (+ 1 (gethash 'k%d o))))", t, t)
 			}
+			if c.Resync {
+				wr = "(set-synchronized o t) " + wr
+			}
 			fmt.Fprintf(&b, " (run (progn (dotimes (i %d) %s %s) (channel-push fin %d)))\n", c.Iter, wr, rd, t)
 		}
 		fmt.Fprintf(&b, " (dotimes (i %d) (channel-pop fin))\n", c.R)
@@ -256,10 +266,25 @@ func (c *Case) program(sfx string) program {
 		b.WriteString(" nil)\n")
 		return program{setup: setup.String(), main: b.String()}
 	}
+	if c.Scen == "s5" {
+		// One routine redefines a method of a generic function that the
+		// other routines are calling: the generic's method table and
+		// effective-method cache are interpreter tables shared by routines.
+		var setup strings.Builder
+		fmt.Fprintf(&setup, "(defgeneric sg%s (a))\n(defmethod sg%s ((a t)) 'base)\n(defmethod sg%s ((a string)) 'str)\n", sfx, sfx, sfx)
+		b.WriteString("(let ((fin (make-channel 64)))\n")
+		fmt.Fprintf(&b, " (run (progn (defmethod sg%s ((a fixnum)) 'new) (sim-emit \"defined\") (channel-push fin 0)))\n", sfx)
+		for t := 0; t < c.R; t++ {
+			fmt.Fprintf(&b, " (run (progn (dotimes (i %d) (sim-emit \"call\" %d (sg%s 1))) (channel-push fin %d)))\n", c.Iter, t, sfx, t+1)
+		}
+		fmt.Fprintf(&b, " (dotimes (i %d) (channel-pop fin))\n (sim-emit \"after\" (sg%s 1) (sg%s 2) (sg%s \"x\")) nil)\n", c.R+1, sfx, sfx, sfx)
+		return program{setup: setup.String(), main: b.String()}
+	}
 	// s4: routines that share nothing but the interpreter's own tables
 	var pr program
 	var setup strings.Builder
 	fmt.Fprintf(&setup, "(defun shared%s (x) (let ((y (* x 2))) (list x y (+ x y))))\n", sfx)
+	fmt.Fprintf(&setup, "(defun sharedexit%s (x) (block b (unwind-protect (dotimes (i 2) (when (= i 1) (return-from b (* x 10)))) (sim-emit \"c\" x))))\n", sfx)
 	b.WriteString("(let ((fin (make-channel 64)))\n")
 	for t, w := range c.Work {
 		var body string
@@ -276,6 +301,9 @@ func (c *Case) program(sfx string) program {
 		case "print":
 			body = fmt.Sprintf("(sim-emit \"r\" %d (write-to-string '(a%d (b \"c%d\" (d e f) #(1 2 %d)) 1.5 %d) :pretty t :right-margin 20) (write-to-string '(x%d (y . z) \"q\") :pretty nil) (format nil \"~a-~s-~d\" 'k%d \"s\" %d))",
 				t, t, t, t, t, t, t, t)
+		case "exit":
+			// several routines run the same compiled return-from at once
+			body = fmt.Sprintf("(dotimes (k 3) (sim-emit \"r\" %d (sharedexit%s %d)))", t, sfx, t+1)
 		default:
 			body = fmt.Sprintf("(sim-emit \"r\" %d (shared%s %d) (funcall (lambda (q) (shared%s (+ q 1))) %d) (mapcar (lambda (z) (* z %d)) '(1 2 3)))", t, sfx, t, sfx, t, t+1)
 		}
@@ -342,7 +370,7 @@ func (c *Case) exec(main string, setup string, sfx string, solo bool) runOut {
 	} else {
 		tp = tape.New(c.TapeSeed)
 	}
-	size := c.P*c.N*(1+len(c.Cons)) + c.R*c.Iter + len(c.Work) + 4
+	size := c.P*c.N*(1+len(c.Cons)) + c.R*c.Iter + 3*len(c.Work) + 4
 	cfg := sched.Config{Policy: c.Policy, SwitchPct: c.SwitchPct, YieldPct: c.YieldPct, PCTDepth: c.PCTDepth,
 		PCTHorizon: 400 * size, TimeJumpPct: c.TimeJumpPct, Salt: c.Salt, Budget: 60000*size + 400000}
 	var out runOut
@@ -461,6 +489,8 @@ func (e *engine) Execute(raw json.RawMessage) (vd harness.Verdict) {
 		v = c.judgeS3(out)
 	case "s4":
 		v = c.judgeS4(out, p, sfx, &vd)
+	case "s5":
+		v = c.judgeS5(out)
 	}
 	if v != nil {
 		pin(v)
@@ -615,6 +645,38 @@ func (c *Case) judgeS3(out runOut) *harness.Violation {
 	return nil
 }
 
+func (c *Case) judgeS5(out runOut) *harness.Violation {
+	defined := false
+	sawNew := map[int]bool{}
+	for _, m := range out.marks {
+		f := fields(m.text)
+		switch f[0] {
+		case "defined":
+			defined = true
+		case "call":
+			t, v := atoi(f[1]), f[2]
+			switch v {
+			case "new":
+				sawNew[t] = true
+			case "base":
+				if sawNew[t] {
+					return viol("stale-dispatch", "routine %d got the old method after it had already got the new one", t)
+				}
+			default:
+				return viol("wrong-dispatch", "routine %d: (sg 1) returned %s", t, v)
+			}
+		case "after":
+			if !defined {
+				return viol("harness", "the defining routine never finished")
+			}
+			if f[1] != "new" || f[2] != "new" || f[3] != "str" {
+				return viol("stale-dispatch", "after every routine finished (sg 1) (sg 2) (sg \"x\") = %v, expected [new new str]", f[1:])
+			}
+		}
+	}
+	return nil
+}
+
 func (c *Case) judgeS4(out runOut, p program, sfx string, vd *harness.Verdict) *harness.Violation {
 	// what each routine reported in the concurrent run
 	conc := map[int][]string{}
@@ -634,7 +696,9 @@ func (c *Case) judgeS4(out runOut, p program, sfx string, vd *harness.Verdict) *
 		vd.Evals++
 		var alone []string
 		for _, m := range so.marks {
-			alone = append(alone, strings.ReplaceAll(m.text, sfx2, sfx))
+			if f := fields(m.text); len(f) > 1 && (f[0] == "r" || f[0] == "before") {
+				alone = append(alone, strings.ReplaceAll(m.text, sfx2, sfx))
+			}
 		}
 		if so.mainRes.Cond != "" {
 			return viol("harness", "routine %d (%s) fails even alone: %s %s", t, c.Work[t], so.mainRes.Cond, so.mainRes.Msg)
